@@ -1,3 +1,214 @@
 //! C05 — attack and geometry lookups equal their geometric definition.
+//!
+//! Three layers:
+//!  * the real small tables / functions against coordinate-arithmetic definitions,
+//!  * the bit-parallel reference formulas (also used as stubs elsewhere) against
+//!    the same definitions and against the real functions (whole bitboards),
+//!  * the const slider variants against the reference, for every square and occupancy.
+//! The magic / PEXT table back ends are decided by the MIR->SMT engine (lib/e2.py).
+
+use crate::nd::Nd;
+use crate::refm;
+use crate::stubs;
+use crate::sym::*;
+use crate::vcover;
+use cozy_chess::*;
+
+fn sym_sq<N: Nd>(n: &mut N) -> u8 {
+    let s = n.u8();
+    n.assume(s < 64);
+    s
+}
+
+fn d(a: u8, b: u8) -> (i16, i16) {
+    ((b & 7) as i16 - (a & 7) as i16, (b >> 3) as i16 - (a >> 3) as i16)
+}
+
+fn abs(x: i16) -> i16 {
+    if x < 0 {
+        -x
+    } else {
+        x
+    }
+}
+
+/// Knight, king and pawn attacks: the real functions, the geometric definition
+/// and the stub formulas agree for every square (and colour), on every target.
+pub fn leapers<N: Nd>(n: &mut N) {
+    let s = sym_sq(n);
+    let t = sym_sq(n);
+    let c = n.u8();
+    n.assume(c < 2);
+    let (dx, dy) = d(s, t);
+    let kn = (abs(dx) == 1 && abs(dy) == 2) || (abs(dx) == 2 && abs(dy) == 1);
+    let kg = (abs(dx) <= 1 && abs(dy) <= 1) && s != t;
+    let pw = abs(dx) == 1 && dy == if c == 0 { 1 } else { -1 };
+    assert!(get_knight_moves(sq(s)).has(sq(t)) == kn);
+    assert!(get_king_moves(sq(s)).has(sq(t)) == kg);
+    assert!(get_pawn_attacks(sq(s), color(c)).has(sq(t)) == pw);
+    assert!(get_knight_moves(sq(s)) == stubs::knight_moves(sq(s)));
+    assert!(get_king_moves(sq(s)) == stubs::king_moves(sq(s)));
+    assert!(get_pawn_attacks(sq(s), color(c)) == stubs::pawn_attacks(sq(s), color(c)));
+    vcover!(kn && s & 7 == 0, "knight on the a-file");
+}
+
+/// Pawn pushes for every square, colour and occupancy.
+pub fn pawn_quiets<N: Nd>(n: &mut N) {
+    let s = sym_sq(n);
+    let t = sym_sq(n);
+    let c = n.u8();
+    n.assume(c < 2);
+    let occ = n.u64();
+    let (dx, dy) = d(s, t);
+    let fwd = if c == 0 { 1 } else { -1 };
+    let free = |q: i16| q >= 0 && q < 64 && (occ >> q) & 1 == 0;
+    let one = s as i16 + 8 * fwd;
+    let start_rank = (s >> 3) == if c == 0 { 1 } else { 6 };
+    let single = dx == 0 && dy == fwd && free(one);
+    let double = dx == 0 && dy == 2 * fwd && start_rank && free(one) && free(t as i16);
+    assert!(get_pawn_quiets(sq(s), color(c), BitBoard(occ)).has(sq(t)) == (single || double));
+    vcover!(double, "a double push");
+    vcover!(s >> 3 == 7 && c == 0, "white pawn on the last rank");
+}
+
+/// Empty-board rays, between and line: real tables vs coordinate geometry vs stubs.
+pub fn rays_between_line<N: Nd>(n: &mut N) {
+    let a = sym_sq(n);
+    let b = sym_sq(n);
+    let t = sym_sq(n);
+    let (dx, dy) = d(a, b);
+    let orth = (dx == 0) != (dy == 0);
+    let diag = abs(dx) == abs(dy) && dx != 0;
+    assert!(get_rook_rays(sq(a)).has(sq(b)) == orth);
+    assert!(get_bishop_rays(sq(a)).has(sq(b)) == diag);
+    assert!(get_rook_rays(sq(a)) == stubs::rook_rays(sq(a)));
+    assert!(get_bishop_rays(sq(a)) == stubs::bishop_rays(sq(a)));
+    // t relative to a
+    let (ex, ey) = d(a, t);
+    let aligned = orth || diag;
+    let collinear = ex * dy - ey * dx == 0;
+    let dot = ex * dx + ey * dy;
+    let len2 = dx * dx + dy * dy;
+    let strictly_between = aligned && collinear && dot > 0 && dot < len2;
+    let on_line = aligned && collinear;
+    assert!(get_between_rays(sq(a), sq(b)).has(sq(t)) == strictly_between);
+    assert!(get_line_rays(sq(a), sq(b)).has(sq(t)) == on_line);
+    assert!(get_between_rays(sq(a), sq(b)) == stubs::between_rays(sq(a), sq(b)));
+    assert!(get_line_rays(sq(a), sq(b)) == stubs::line_rays(sq(a), sq(b)));
+    vcover!(strictly_between && diag, "a square strictly between on a diagonal");
+    vcover!(on_line && !strictly_between && t != a && t != b, "on the line beyond the end points");
+}
+
+/// The reference slider attacks (Kogge-Stone fills, used as stubs) equal a naive
+/// walk along each ray up to and including the first occupied square.
+pub fn ks_vs_walk<N: Nd>(n: &mut N) {
+    let s = sym_sq(n);
+    let occ = n.u64();
+    const DIRS: [(i16, i16); 8] = [(0, 1), (0, -1), (1, 0), (-1, 0), (1, 1), (-1, 1), (1, -1), (-1, -1)];
+    let mut rook = 0u64;
+    let mut bishop = 0u64;
+    let mut di = 0;
+    while di < 8 {
+        let (fx, fy) = DIRS[di];
+        let mut x = (s & 7) as i16;
+        let mut y = (s >> 3) as i16;
+        let mut acc = 0u64;
+        let mut open = true;
+        let mut k = 0;
+        while k < 7 {
+            x += fx;
+            y += fy;
+            let inside = x >= 0 && x < 8 && y >= 0 && y < 8;
+            open &= inside;
+            let q = ((y * 8 + x) & 63) as u32;
+            acc |= (1u64 << q) & refm::mask(open);
+            open &= (occ >> q) & 1 == 0;
+            k += 1;
+        }
+        if di < 4 {
+            rook |= acc;
+        } else {
+            bishop |= acc;
+        }
+        assert!(refm::ray(di, 1u64 << s, occ) == acc);
+        di += 1;
+    }
+    assert!(refm::rook_att(1u64 << s, occ) == rook);
+    assert!(refm::bishop_att(1u64 << s, occ) == bishop);
+}
+
+/// The const slider variants equal the reference for every square and occupancy.
+pub fn const_sliders<N: Nd>(n: &mut N, rook: bool) {
+    let s = sym_sq(n);
+    let occ = n.u64();
+    if rook {
+        assert!(get_rook_moves_const(sq(s), BitBoard(occ)).0 == refm::rook_att(1u64 << s, occ));
+    } else {
+        assert!(get_bishop_moves_const(sq(s), BitBoard(occ)).0 == refm::bishop_att(1u64 << s, occ));
+    }
+}
+
+/// Relevant-blocker masks used to build the table: the squares a slider passes
+/// over before the last square of each ray (edges excluded).
+pub fn relevant_blockers<N: Nd>(n: &mut N) {
+    let s = sym_sq(n);
+    let t = sym_sq(n);
+    let (dx, dy) = d(s, t);
+    let (tx, ty) = ((t & 7) as i16, (t >> 3) as i16);
+    let orth = (dx == 0) != (dy == 0);
+    let diag = abs(dx) == abs(dy) && dx != 0;
+    // a rook blocker on the far edge of its ray is irrelevant
+    let rook_rel = orth && ((dy == 0 && tx != 0 && tx != 7) || (dx == 0 && ty != 0 && ty != 7));
+    let bishop_rel = diag && tx != 0 && tx != 7 && ty != 0 && ty != 7;
+    assert!(cozy_chess_types::get_rook_relevant_blockers(sq(s)).has(sq(t)) == rook_rel);
+    assert!(cozy_chess_types::get_bishop_relevant_blockers(sq(s)).has(sq(t)) == bishop_rel);
+}
+
+/// Bridge for the SMT engine (magic back end): the compiled index functions equal
+/// `offset + (((occ | neg_mask) * magic) >> (64 - bits))` with the per-square
+/// constants the hook reports, for every square and occupancy.
+#[cfg(not(feature = "pext"))]
+pub fn magic_bridge<N: Nd>(n: &mut N, rook: bool) {
+    let s = sym_sq(n);
+    let occ = n.u64();
+    let (neg_mask, magic, offset, bits) = cozy_chess_types::verif_index_entry(rook, sq(s));
+    let want = offset as usize + ((occ | neg_mask).wrapping_mul(magic) >> (64 - bits)) as usize;
+    let got = if rook {
+        cozy_chess_types::get_rook_moves_index(sq(s), BitBoard(occ))
+    } else {
+        cozy_chess_types::get_bishop_moves_index(sq(s), BitBoard(occ))
+    };
+    assert!(got == want);
+    assert!(got < cozy_chess_types::SLIDING_MOVE_TABLE_SIZE);
+    // the mask is the complement of the relevant blockers
+    let rel = if rook {
+        cozy_chess_types::get_rook_relevant_blockers(sq(s))
+    } else {
+        cozy_chess_types::get_bishop_relevant_blockers(sq(s))
+    };
+    assert!(neg_mask == !rel.0);
+}
+
+#[cfg(feature = "pext")]
+pub fn magic_bridge<N: Nd>(_n: &mut N, _rook: bool) {}
+
 crate::proofs! {
+    #[kani::unwind(10)]
+    c05_leapers => leapers;
+    #[kani::unwind(4)]
+    c05_pawn_quiets => pawn_quiets;
+    #[kani::unwind(10)]
+    c05_rays_between_line => rays_between_line;
+    #[kani::unwind(10)]
+    c05_ks_vs_walk => ks_vs_walk;
+    #[kani::unwind(10)]
+    c05_const_rook => |n: &mut _| const_sliders(n, true);
+    #[kani::unwind(10)]
+    c05_const_bishop => |n: &mut _| const_sliders(n, false);
+    #[kani::unwind(66)]
+    c05_relevant_blockers => relevant_blockers;
+    #[kani::unwind(66)]
+    c05_magic_bridge_rook => |n: &mut _| magic_bridge(n, true);
+    #[kani::unwind(66)]
+    c05_magic_bridge_bishop => |n: &mut _| magic_bridge(n, false);
 }
